@@ -150,7 +150,7 @@ def canon(e):
     if k == 'index':
         b, i = canon(e[1]), canon(e[2])
         return None if b is None or i is None else f'{b}[{i}]'
-    if k == 'call' and e[1] in ('len', 'unwrap', 'clone', 'unwrap_or', 'number_of_nodes', 'get_node_degree'):
+    if k == 'call' and e[1] in ('len', 'unwrap', 'clone', 'unwrap_or', 'number_of_nodes', 'get_node_degree', 'is_none', 'is_some'):
         b = canon(e[2])
         if b is None:
             return None
@@ -178,6 +178,8 @@ def emit(e, atoms, want=None):
     c = canon(e)
     if c is not None and c in atoms:
         return atoms[c]
+    if k == 'path' and e[1] in ('true', 'false'):
+        return e[1], 'bool'
     if k == 'num':
         return lit(e[1], want)
     if k == 'paren':
@@ -219,6 +221,8 @@ def emit(e, atoms, want=None):
         b, tb = side(e[3], ta if ta in ('rat', 'nat') else want)
         if e[2][0] == 'num' and tb in ('rat', 'nat') and ta != tb:
             a, ta = side(e[2], tb)
+        if ta == tb == 'bool' and op in ('==', '!='):
+            return (f'({a} == {b})' if op == '==' else f'({a} != {b})'), 'bool'
         if ta != tb:
             raise ParseError(f'type mismatch in `{op}`: {a} : {ta} vs {b} : {tb}')
         if op in '+-*/':
@@ -231,7 +235,31 @@ def emit(e, atoms, want=None):
 LEAN_TY = {'rat': 'Rat', 'nat': 'Nat', 'bool': 'Bool'}
 
 # (property, name, file, regex with one group (re.S), occurrence index, params [(rust atom, lean name, type)], result type)
+DJ = 'src/algorithms/shortest_path/dijkstra.rs'
 SITES = [
+    # ---- C04 / C08: the relaxation step of dijkstra / dijkstra_basic, the choice between them, the fringe key ----
+    ('C04', 'relaxDist', DJ, r'let vu_dist = (.*?);', 0, [('dist[v]', 'dv', 'rat'), ('cost', 'c', 'rat')], 'rat'),
+    ('C04', 'relaxDistBasic', DJ, r'let vu_dist = (.*?);', 1, [('dist[v]', 'dv', 'rat'), ('cost', 'c', 'rat')], 'rat'),
+    ('C04', 'hopCost', DJ, r'let cost = match weighted \{\s*true => adj\.weight,\s*false => (.*?),\s*\};', 0, [], 'rat'),
+    ('C04', 'hopCostBasic', DJ, r'let cost = match weighted \{\s*true => adj\.weight,\s*false => (.*?),\s*\};', 1, [], 'rat'),
+    ('C04', 'overCutoff', DJ, r'if cutoff\.map_or\(false, \|c\| (.*?)\) \{\s*continue;', 0, [('vu_dist', 'vu', 'rat'), ('c', 'c', 'rat')], 'bool'),
+    ('C04', 'contradictory', DJ, r'let u_dist = dist\[u\];\s*if (.*?) \{\s*return Err', 0, [('vu_dist', 'vu', 'rat'), ('u_dist', 'du', 'rat')], 'bool'),
+    ('C04', 'improves', DJ, r'if (vu_dist [^{;]*?) \{\s*seen\[u\] = vu_dist;', 0, [('vu_dist', 'vu', 'rat'), ('seen[u]', 'su', 'rat')], 'bool'),
+    ('C04', 'improvesBasic', DJ, r'if (vu_dist [^{;]*?) \{\s*seen\[u\] = vu_dist;', 1, [('vu_dist', 'vu', 'rat'), ('seen[u]', 'su', 'rat')], 'bool'),
+    ('C04', 'tie', DJ, r'\} else if (!first_only[^{;]*?) \{\s*push_fringe_node', 0,
+     [('first_only', 'firstOnly', 'bool'), ('vu_dist', 'vu', 'rat'), ('seen[u]', 'su', 'rat')], 'bool'),
+    ('C04', 'tieBasic', DJ, r'\} else if (vu_dist [^{;]*?) \{\s*push_fringe_node', 0, [('vu_dist', 'vu', 'rat'), ('seen[u]', 'su', 'rat')], 'bool'),
+    ('C04', 'canUseBasic', DJ, r'fn can_use_basic<T>\(.*?\) -> bool \{\s*(.*?)\s*\}', 0,
+     [('target.is_none()', 'targetNone', 'bool'), ('cutoff.is_none()', 'cutoffNone', 'bool'), ('first_only', 'firstOnly', 'bool'),
+      ('with_paths', 'withPaths', 'bool')], 'bool'),
+    ('C04', 'pushDistance', DJ, r'distance: (-vu_dist),', 0, [('vu_dist', 'vu', 'rat')], 'rat'),
+    ('C04', 'popDistance', DJ, r'let d = (.*?);\s*let v = fringe_item\.node_index;', 0, [('fringe_item.distance', 'fd', 'rat')], 'rat'),
+    ('C04', 'popDistanceBasic', DJ, r'let d = (.*?);\s*let v = fringe_item\.node_index;', 1, [('fringe_item.distance', 'fd', 'rat')], 'rat'),
+    # ---- C05: accumulate_betweenness ----
+    ('C05', 'accCoeff', 'src/algorithms/centrality/betweenness.rs', r'let coeff = (.*?);', 0, [('delta[w]', 'deltaW', 'rat'), ('result.sigma[w]', 'sigmaW', 'rat')], 'rat'),
+    ('C05', 'accDelta', 'src/algorithms/centrality/betweenness.rs', r'delta\[\*v\] \+= (.*?);', 0, [('result.sigma[v]', 'sigmaV', 'rat'), ('coeff', 'coeff', 'rat')], 'rat'),
+    ('C05', 'accSkipSource', 'src/algorithms/centrality/betweenness.rs', r'if (\*w [!=]= result\.source) \{\s*betweenness\[\*w\] \+= delta\[\*w\];', 0,
+     [('w', 'w', 'nat'), ('result.source', 'source', 'nat')], 'bool'),
     # ---- C13 / C17: update_best_com ----
     ('C13', 'gainDirected', 'src/algorithms/community/louvain.rs', r'let gain = match directed \{\s*true => \{\s*(.*?)\s*\}\s*false =>', 0,
      [('m', 'm', 'rat'), ('resolution', 'res', 'rat'), ('wt', 'wt', 'rat'), ('deg_info.out_degree', 'outDeg', 'rat'), ('deg_info.in_degree', 'inDeg', 'rat'),
